@@ -302,8 +302,9 @@ impl AssemblyCode {
                 match &second {
                     None => return removed_instructions,
                     Some(AsmLine::Instruction(_)) => break,
-                    Some(AsmLine::Label(_)) => {
-                        // If this is a label, restart
+                    Some(AsmLine::Label(_)) | Some(AsmLine::Inline(_, _)) => {
+                        // If this is a label, restart. Inline assembly can change any register
+                        // or memory cell, so it is a barrier too
                         first = iter.next();
                         loop {
                             match &first {
